@@ -1334,6 +1334,52 @@ def fixed_trees(ctx):
                      [Rec('DTSTART', 'datetime', v, {}, ['DATE-TIME'], [zone])])
 
 
+def own_zone_trees(ctx):
+    """a calendar built through the API that carries its own VTIMEZONE (ids with and without slashes, X- properties
+    inside the observances) and values in that zone: written with that TZID, read back with the zone's offset, and
+    every property of the VTIMEZONE still there"""
+    import icalendar
+    from icalendar import Calendar, Event
+    from harness.props.C01 import OWN_ZONE
+    for prov in ('zoneinfo', 'pytz'):
+        for tzid in (b'Verif/Own-C', b'/verif.example/Own/D', b'Verif/Own-E/'):
+            getattr(icalendar, 'use_' + prov)()
+            try:
+                inp = {'witness': 'own-zone', 'provider': prov, 'tzid': tzid.decode()}
+                ctx.evaluated(('own-zone', prov, tzid))
+                vtz = Calendar.from_ical(OWN_ZONE % (tzid, tzid)).walk('VTIMEZONE')[0]
+                names_before = sorted((c.name, k) for c in vtz.walk() for k in c.keys())
+                getattr(icalendar, 'use_' + prov)()          # the provider forgets the zone; the API builds it again
+                tz = vtz.to_tz()
+                cal = Calendar()
+                cal.add('prodid', '-//verif//EN')
+                cal.add('version', '2.0')
+                cal.add_component(vtz)
+                for mo in (1, 7):
+                    naive = datetime(2024, mo, 15, 12, 30)
+                    d = tz.localize(naive) if hasattr(tz, 'localize') else naive.replace(tzinfo=tz)
+                    e = Event()
+                    e.add('uid', 'o%d' % mo)
+                    e.add('dtstart', d)
+                    e.add('rdate', [d])
+                    cal.add_component(e)
+                    data = cal.to_ical()
+                    back = Calendar.from_ical(data)
+                    ev = back.walk('VEVENT')[-1]
+                    for name, v, p in (('DTSTART', ev['DTSTART'].dt, ev['DTSTART'].params), ('RDATE', ev['RDATE'].dts[0].dt, ev['RDATE'].params)):
+                        if p.get('TZID') != tzid.decode() or v.replace(tzinfo=None) != naive or v.utcoffset() != d.utcoffset():
+                            ctx.violation('own-zone-value', dict(inp, ical=data.decode()),
+                                          f'{name} {d!r} (offset {d.utcoffset()}) read back as {v!r} (offset {v.utcoffset()}), TZID={p.get("TZID")!r}')
+                    names_after = sorted((c.name, k) for c in back.walk('VTIMEZONE')[0].walk() for k in c.keys())
+                    if names_after != names_before:
+                        ctx.violation('own-zone-properties', dict(inp, ical=data.decode()),
+                                      f'the VTIMEZONE read back has properties {names_after}, built with {names_before}')
+            except Exception as ex:  # noqa: BLE001
+                ctx.violation('own-zone-error', inp, f'{type(ex).__name__}: {ex}')
+            finally:
+                icalendar.use_zoneinfo()
+
+
 def check_last_set_wins(ctx):
     """a property setter replaces the value: after `c.X = a; c.X = b` the component serialises exactly like a
     fresh component on which only `c.X = b` was done (same VALUE / TZID parameters, same text), and a value
@@ -1403,6 +1449,7 @@ def oracle(ctx):
         check_last_set_wins(ctx)
         witnesses(ctx)
         fixed_trees(ctx)
+        own_zone_trees(ctx)
         types_clause(ctx)
         for provider in ('zoneinfo', 'pytz'):
             if provider == 'pytz':
